@@ -25,7 +25,7 @@ CLAIMED = {
  "C08": dict(cat="other", tech="value numbering under path assumptions (zero / non-zero seed), GF(2) rank of the decode, bijection-chain recognition of SplitMix64's output, constant propagation of the zero-seed path, who-constructs query, compile-fail witness",
    text="from_seed of the 14 xoshiro types is shown to be ite(AllZero(whole seed), Self::seed_from_u64(0), bijective LE decode); seed_from_u64 is from_rng on SplitMix64{x}; SplitMix64's output is a bijection of its counter and PHI != 0; the all-zero seed constant-folds to a non-zero state; XorShiftRng maps the zero seed to 0x0BAD5EED x4; generator ADTs are constructed only by the seeding API.",
    note=TB + "; rand_core default from_rng/try_from_rng", ref="4/C08"),
- "C10": dict(cat="other", tech="value numbering of every Clone::clone and PartialEq::eq body on symbolic values; identity with the all-fields conjunction",
+ "C10": dict(cat="other", tech="value numbering of every Clone::clone and PartialEq::eq body on symbolic values; identity with the all-fields conjunction; dependence of BlockRngCore::generate on the old contents of its results buffer (atoms of the post-state)",
    text="Every Clone impl returns a value identical in every leaf; every == is exactly the conjunction of whole-leaf equalities over all fields (one reasoned exception: the == of a wrapper around rand_core's BlockRng/BlockRng64 may omit the buffer `results`, and only that).",
    note=TB + "; futures depend on fields only: C19", ref="4/C10"),
  "C11": dict(cat="other", tech="value numbering of the derive-generated serialize / visit_seq bodies and of isaac_array_serde with opaque (de)serializer; per-argument taint of opaque calls; call-site counts for visit_map; identity of every generated with-wrapper / newtype-visitor result with the unmodified result of one deserializer call (helpers inlined); element order of generated serialize wrappers",
